@@ -250,3 +250,31 @@ func (s *Samples) Add(v any) {
 		s.List = append(s.List, v)
 	}
 }
+
+// LoadReplay reads the "replay" object of a replay file written by Violation into v and returns the stored
+// signature and detail. Checks without a targeted replay simply run in full (and re-detect the violation).
+func (r *Run) LoadReplay(v any) (sig, detail string, err error) {
+	b, err := os.ReadFile(r.Replay)
+	if err != nil {
+		return "", "", err
+	}
+	var f struct {
+		Signature string          `json:"signature"`
+		Detail    string          `json:"detail"`
+		Replay    json.RawMessage `json:"replay"`
+	}
+	if err := json.Unmarshal(b, &f); err != nil {
+		return "", "", err
+	}
+	return f.Signature, f.Detail, json.Unmarshal(f.Replay, v)
+}
+
+// ReplayVerdict prints the outcome of a targeted replay and exits (1 if the violation reproduces).
+func (r *Run) ReplayVerdict(sig, detail string) {
+	if sig != "" {
+		fmt.Printf("VIOLATION property=%s replay=%s\n  signature: %s\n  detail: %s\n", r.Prop, r.Replay, sig, detail)
+		os.Exit(1)
+	}
+	fmt.Println("replay: no violation on this tree")
+	os.Exit(0)
+}
